@@ -447,6 +447,9 @@ class Executor:
             else:
                 n = (1 << (w - 1)) - 1 if sg else (1 << w) - 1
             return Prim(m.group(1), z3.BitVecVal(n, w))
+        if re.search(r"::promoted\[\d+\]$", t):
+            # promoted constant (`&CONST` lifted by rustc): an unknown but fixed value behind a reference
+            return Lazy("&?promoted", t)
         # function items / other constants: uninterpreted but stable by text
         if re.match(r"[\w<{]", t):
             return FnItem(t)
@@ -1786,7 +1789,7 @@ DEFAULT_MODELS = [
     (_rx(r"^NotNan::<f64>::new$"), m_notnan_new),
     (_rx(r"^NotNan::<f64>::into_inner$"), m_notnan_into_inner),
     (_rx(r"^(std::rt::|core::panicking::)?(panic|panic_fmt|begin_panic|panic_display|panic_explicit)\b|::expect_failed$|::unwrap_failed$|^(core::)?panicking::panic"), m_panic),
-    (_rx(r"^(std::mem::|core::mem::)?drop::<"), m_drop),
+    (_rx(r"^(std::mem::|core::mem::)?drop::<| as (std::ops::)?Drop>::drop$"), m_drop),
     (_rx(r"<impl f64>::(is_nan|is_normal|is_infinite|is_finite|abs)$"), m_fp_method),
     (_rx(r"<impl (i64|i32|isize|u64|usize|u32|u8)>::(wrapping_add|wrapping_sub|wrapping_mul|wrapping_rem|wrapping_div|wrapping_neg|wrapping_abs|unsigned_abs|abs|saturating_sub|saturating_add|checked_add|checked_sub|checked_neg|min|max)$"), m_int_method),
 ]
